@@ -37,6 +37,16 @@ theorem zero_rate_never (rs : List (Λ × Rat × Nat)) (xc : Rat) (first : Λ ×
   obtain ⟨k, hk, e, a, b⟩ := select_spec rs xc first h0 h1
   rw [e]; grind
 
+/-- conversely (non-negative rates): every `xc` inside the `k`-th cumulative-rate interval selects the `k`-th event, so the set
+    of `r₂` selecting it is the whole interval, whose measure is `select_law` — the kernel is `rateₖ/a` exactly, not just at most -/
+theorem select_complete (rs : List (Λ × Rat × Nat)) (xc : Rat) (first : Λ × Rat × Nat) (k : Nat) (hk : k < rs.length)
+    (hn : ∀ r ∈ rs, 0 ≤ r.2.1) (h0 : rateSum (rs.take k) ≤ xc) (h1 : xc < rateSum (rs.take k) + rs[k].2.1) :
+    select xc Arith.zero rs first = rs[k] :=
+  select_complete_aux xc rs 0 first k hk hn (by grind) (by grind)
+
+/-- the premises are satisfiable: rates 1, 0, 2 and `xc = 1` select the third entry (the zero-rate one is skipped) -/
+example : select (1 : Rat) Arith.zero [((0 : Nat), (1 : Rat), 3), (1, 0, 0), (2, 2, 5)] (0, 1, 3) = (2, 2, 5) := by decide +kernel
+
 /-- `r₂·a` always lies in `[0, a)` for `r₂ ∈ [0, 1)` and `a > 0`: the fall-through of the Python loop is unreachable -/
 theorem scan_never_falls_through (a r2 : Rat) (ha : 0 < a) (h0 : 0 ≤ r2) (h1 : r2 < 1) : 0 ≤ r2 * a ∧ r2 * a < a := by
   constructor
